@@ -65,7 +65,7 @@ class History(Driver):
                'set_value', 'set_value', 'remove_item', 'remove_item', 'loop_category', 'set_category', 'loop_names',
                'add_item', 'add_item', 'add_packet', 'add_packet', 'add_packet', 'add_packet', 'loop_destroy',
                'iterate', 'iterate', 'parse_into', 'checkpoint', 'new_cif', 'scalar_cycle', 'recreate_pruned',
-               'stale_loop']
+               'stale_loop', 'stale_container']
         op = rng.choice(ops)
         self.ctx.count('calls')
         ci = self.pick_cif()
@@ -366,6 +366,9 @@ class History(Driver):
             self.recreate_pruned(ci, cont)
         elif op == 'stale_loop':
             self.stale_loop(ci, cont)
+        elif op == 'stale_container':
+            if len(m.containers()) >= 3:
+                self.stale_container(ci, m, cont)
 
     # ------------------------------------------------------------------------------------------------------
     def iterate(self, ci, cont, ml, lh):
@@ -421,6 +424,22 @@ class History(Driver):
                 elif act == 'remove':
                     r3 = L.it_remove(it)
                     self.expect('cif_pktitr_remove_packet', r3, {CIF_OK})
+                    # the packet is gone: until the next one is delivered there is nothing to update or remove
+                    again = rng.choice(['none', 'none', 'remove', 'update'])
+                    if again == 'remove':
+                        r3 = L.it_remove(it)
+                        self.expect('cif_pktitr_remove_packet(just removed)', r3, {CIF_MISUSE})
+                        self.ctx.count('iterator_steps_refused_after_remove')
+                    elif again == 'update':
+                        n = rng.choice(norms)
+                        r3, upk = L.packet_create([n])
+                        v = self.mk(self.rand_value())
+                        L.packet_set(upk, n, v)
+                        L.value_free(v)
+                        r3 = L.it_update(it, upk)
+                        L.packet_free(upk)
+                        self.expect('cif_pktitr_update_packet(just removed)', r3, {CIF_MISUSE})
+                        self.ctx.count('iterator_steps_refused_after_remove')
                 elif act == 'update':
                     n = rng.choice(norms)
                     pv = self.rand_value()
@@ -566,6 +585,75 @@ class History(Driver):
         finally:
             L.container_free(ch)
 
+    def stale_container(self, ci, m, cont):
+        """A handle on a data block / save frame that was destroyed through another handle.  The documentation leaves
+        the result of using it open (CIF_INVALID_HANDLE "may" be returned), so only what the property states is judged:
+        the call returns a defined code, leaves no transaction open, and the CIF stays exactly the model."""
+        L, rng = self.L, self.rng
+        stale = self.open_container(ci, cont)
+        killer = self.open_container(ci, cont)
+        rcs, commit = CM.op_container_destroy(m, cont)
+        rc = L.container_destroy(killer)
+        if rc != CIF_OK:
+            L.container_free(killer)
+            L.container_free(stale)
+            self.after_call(ci, 'cif_container_destroy', rc, rcs)
+            return
+        commit()
+        which = rng.choice(['all_loops', 'all_frames', 'create_frame', 'create_loop', 'set_value', 'get_value', 'item_loop',
+                            'cat_loop', 'remove_item', 'prune', 'destroy', 'get_code'])
+        anyrc = set(DEFINED_CODES) - {CIF_FINISHED}
+        if which == 'all_loops':
+            rc, loops = L.get_all_loops(stale)
+            for l in loops or []:
+                L.loop_free(l)
+        elif which == 'all_frames':
+            rc, frames = L.get_all_frames(stale)
+            for f in frames or []:
+                L.container_free(f)
+        elif which == 'create_frame':
+            rc, h = L.create_frame(stale, 'stale_child', True)
+            if rc == CIF_OK and h:
+                L.container_free(h)
+        elif which == 'create_loop':
+            rc, h = L.create_loop(stale, 'stale_cat', ['_stale1', '_stale2'], True)
+            if rc == CIF_OK and h:
+                L.loop_free(h)
+        elif which == 'set_value':
+            v = self.mk(self.rand_value())
+            rc = L.set_value(stale, '_stale_item', v)
+            L.value_free(v)
+        elif which == 'get_value':
+            rc, v = L.get_value(stale, '_stale_item')
+            if rc == CIF_OK and v:
+                L.value_free(v)
+        elif which == 'item_loop':
+            rc, h = L.get_item_loop(stale, '_stale_item')
+            if rc == CIF_OK and h:
+                L.loop_free(h)
+        elif which == 'cat_loop':
+            rc, h = L.get_category_loop(stale, '')
+            if rc == CIF_OK and h:
+                L.loop_free(h)
+        elif which == 'remove_item':
+            rc = L.remove_item(stale, '_stale_item')
+        elif which == 'prune':
+            rc = L.call('cif_container_prune', stale)
+        elif which == 'get_code':
+            rc, code = L.get_code(stale)
+        else:
+            rc = L.container_destroy(stale)
+            if rc in (CIF_OK, CIF_INVALID_HANDLE):
+                stale = None        # the handle is released whenever the statement ran, whatever it found
+        self.note('%s(stale container) -> %d' % (which, rc))
+        self.expect('%s(stale container)' % which, rc, anyrc)
+        if stale:
+            L.container_free(stale)
+        self.check_tx(ci, '%s(stale container)' % which)
+        self.check_state(ci, 'changed-on-failure', 'stale-container %s' % which)
+        self.ctx.count('stale_container_cases')
+        self.ctx.add('stale_container_results', '%s:%d' % (which, rc))
+
     def parse_into(self, ci):
         """parse a small well-formed document with fresh block codes into the existing CIF"""
         L, rng = self.L, self.rng
@@ -659,7 +747,8 @@ def coverage(res, n):
         samples=res.samples, calls=res.count('calls'), histories_completed=res.count('histories_completed'),
         failed_calls_checked_unchanged=res.count('failed_calls'), state_comparisons=res.count('state_comparisons'),
         iterations=res.count('iterations'), scalar_cycles=res.count('scalar_cycles'),
-        recreate_after_prune=res.count('recreate_after_prune'), stale_handle_cases=res.count('stale_handle_cases'),
+        recreate_after_prune=res.count('recreate_after_prune'), stale_handle_cases=res.count('stale_handle_cases'), stale_container_cases=res.count('stale_container_cases'),
+            stale_container_results=sorted(res.sets.get('stale_container_results', ())),
         parses_into_existing=res.count('parses_into_existing'),
         operation_result_matrix=sorted(res.sets.get('op_rc', ())),
         failing_call_kinds=sorted(res.sets.get('failed_kinds', ())), crashes=res.crashes)
